@@ -502,8 +502,11 @@ func StandardWorld(name string) *World {
 		}
 		withUSDT(w)
 		return w
-	case "W2":
-		w := &World{Name: "W2", StakePeriod: 6, ExpirePeriod: 5, InitialHeight: 10197400}
+	case "W2", "W2u": // W2u: the genesis of the staking model (MCStaking.Genesis), every price = one unit
+		w := &World{Name: name, StakePeriod: 6, ExpirePeriod: 5, InitialHeight: 10197400}
+		if name == "W2u" {
+			w.PriceMode = "unit"
+		}
 		w.Accounts = accs(6, map[string]string{"BIP": "1000000u"})
 		for i := 1; i <= 4; i++ {
 			o := fmt.Sprintf("o%d", i)
